@@ -16,7 +16,10 @@ package main
 
 import (
 	"fmt"
+	"go/ast"
 	"go/token"
+	"go/types"
+	"sort"
 	"strings"
 )
 
@@ -372,7 +375,6 @@ func c01Sweeps(p *Prog, r *Report) {
 	// boundary-flux counters: booked whatever the sign of the flux
 	var fam [][]*Cond
 	nb := 0
-	gwauf := false
 	for _, e := range x.Events {
 		if e.Kind != "assign" || len(e.Loops) != 0 {
 			continue
@@ -391,20 +393,105 @@ func c01Sweeps(p *Prog, r *Report) {
 			}
 			fam = append(fam, gs)
 		}
-		if e.Root == "GlobalVarsMain.CAPSUM" && d.MentionsRoot("WaterSharedVars.GWAUF") {
-			nl := 0
-			for _, g := range flattenGuards(e.Guards) {
-				if !g.Loop {
-					nl++
-				}
-			}
-			if nl == 0 {
-				gwauf = true
-			}
-		}
 	}
 	okB, whyB := coversAllPaths(fam, nil)
 	r.Ob("boundary:every-sign", "-", nb >= 2 && okB, fmt.Sprintf("the flux through the reporting depth is booked (percolation or capillary counter) on every path: %d accumulations, covering: %v %s", nb, okB, whyB))
-	r.Ob("boundary:groundwater-uptake", "-", gwauf, fmt.Sprintf("root uptake taken from the groundwater layer is booked unconditionally as supply through the lower boundary: %v", gwauf))
 	_ = strings.Join
+}
+
+// ---------------------------------------------------------------- R8 the reporting depth lies inside the profile
+
+// c01ReportingDepth: the boundary counters read the interface flux at the configured leaching depth.  Interface
+// fluxes exist for the boundaries 0..N of the profile only; a deeper entry of the flux array is never written, so a
+// leaching depth below a shallow profile reports no percolation at all while the water leaves through the profile
+// bottom.  Demanded: the input routine, once the number of layers is known, caps the leaching depth at it (cap idiom,
+// same block as the store of the layer count and after it, under no further condition), and nothing writes the
+// leaching depth afterwards except the configuration reader.
+func c01ReportingDepth(p *Prog, r *Report, rule string) {
+	r.Rule(rule, "the depth at which the lower-boundary flux is reported lies inside the profile: after the number of layers is stored the input routine caps the leaching depth at it (cap idiom in the same block, under no further condition); the only other writers of the leaching depth are the state constructor and the configuration reader", 2)
+	fi := p.Funcs["hermes.Input"]
+	if fi == nil {
+		r.Ob("leaching-depth:in-profile", "-", false, "hermes.Input not found")
+		return
+	}
+	info := fi.Pkg.TypesInfo
+	field := func(e ast.Expr) string {
+		se, ok := e.(*ast.SelectorExpr)
+		if !ok {
+			return ""
+		}
+		sel, ok := info.Selections[se]
+		if !ok || sel.Kind() != types.FieldVal {
+			return ""
+		}
+		name, _ := namedStruct(sel.Recv())
+		return name + "." + se.Sel.Name
+	}
+	found, ok, pos := false, false, "-"
+	det := "no store of the number of layers found in hermes.Input"
+	ast.Inspect(fi.Decl.Body, func(n ast.Node) bool {
+		blk, isB := n.(*ast.BlockStmt)
+		if !isB {
+			return true
+		}
+		for i, st := range blk.List {
+			as, isAs := st.(*ast.AssignStmt)
+			if !isAs || len(as.Lhs) != 1 || field(as.Lhs[0]) != "GlobalVarsMain.N" {
+				continue
+			}
+			found = true
+			det = "the leaching depth is not capped at the number of layers after it is stored: for a profile shallower than the configured leaching depth the flux array is read beyond the last interface, percolation, capillary rise and N leaching are reported as 0"
+			pos = p.Pos(as.Pos())
+			for _, later := range blk.List[i+1:] {
+				is, isIf := later.(*ast.IfStmt)
+				if !isIf || is.Init != nil || is.Else != nil || len(is.Body.List) != 1 {
+					continue
+				}
+				be, isBe := is.Cond.(*ast.BinaryExpr)
+				if !isBe {
+					continue
+				}
+				l, rr := field(be.X), field(be.Y)
+				over := (l == "GlobalVarsMain.OUTN" && rr == "GlobalVarsMain.N" && be.Op == token.GTR) || (l == "GlobalVarsMain.N" && rr == "GlobalVarsMain.OUTN" && be.Op == token.LSS)
+				cs, isCs := is.Body.List[0].(*ast.AssignStmt)
+				if over && isCs && len(cs.Lhs) == 1 && len(cs.Rhs) == 1 && cs.Tok == token.ASSIGN && field(cs.Lhs[0]) == "GlobalVarsMain.OUTN" && field(cs.Rhs[0]) == "GlobalVarsMain.N" {
+					ok, pos = true, p.Pos(is.Pos())
+					det = "the leaching depth is capped at the number of layers right after it is stored"
+				}
+			}
+		}
+		return true
+	})
+	// the cap is the input routine's only store of the leaching depth
+	nStores := 0
+	ast.Inspect(fi.Decl.Body, func(n ast.Node) bool {
+		switch t := n.(type) {
+		case *ast.AssignStmt:
+			for _, l := range t.Lhs {
+				if field(l) == "GlobalVarsMain.OUTN" {
+					nStores++
+				}
+			}
+		case *ast.IncDecStmt:
+			if field(t.X) == "GlobalVarsMain.OUTN" {
+				nStores++
+			}
+		}
+		return true
+	})
+	if ok && nStores != 1 {
+		ok, det = false, fmt.Sprintf("the input routine stores the leaching depth %d times: besides the cap at the number of layers it must not change the configured value", nStores)
+	}
+	r.Ob("leaching-depth:in-profile", pos, found && ok, det)
+	// writers
+	var others []string
+	for _, w := range p.Fields().Writers(FieldRef{"GlobalVarsMain", "OUTN"}) {
+		switch {
+		case w.Key == "hermes.Input", w.Key == "hermes.NewGlobalVarsMain", w.Key == "hermes.readConfig", strings.HasPrefix(w.Key, "hermes.NewDefault"):
+		default:
+			others = append(others, w.Key)
+		}
+	}
+	sort.Strings(others)
+	r.Ob("leaching-depth:writers", "-", len(others) == 0, fmt.Sprintf("writers of the leaching depth besides the constructor, the configuration reader and the input routine: %v", others))
 }
